@@ -313,38 +313,45 @@ fn fixed_char(len: usize) -> &'static str {
 
 /// sizes that cross the thresholds a refactoring could introduce (u8 / u16 counters, 256-wide blocks,
 /// 1024 / 4096 buffers), capped at `max`
-const SCALE_SIZES: &[usize] = &[255, 256, 257, 300, 1023, 1025, 4097, 65535, 65536, 65537];
+const SCALE_SIZES: &[usize] = &[255, 256, 257, 300, 511, 513, 1023, 1025, 4097, 65535, 65536, 65537];
 fn scale_size(rng: &mut Rng, max: usize) -> usize {
     let ok: Vec<usize> = SCALE_SIZES.iter().copied().filter(|s| *s <= max).collect();
     if ok.is_empty() { max } else { *rng.pick(&ok) }
 }
 
 /// SCALE stream: (text, max, ctx). Cost limits of the MODEL (not of the code): the clause checker evaluates a
-/// prefix sum per window boundary (#windows x #clusters), and the byte-window loop builds `rev (nrange 0 ws)`
-/// with the standard library's quadratic `rev` for every window (#windows x #clusters^2 / 3 list cells, 21 ns each).
-/// `fits` keeps a case below roughly 0.3 s of model time.
+/// prefix sum per window boundary (#windows x #clusters), the byte-window loop builds `rev (nrange 0 ws)` with the
+/// standard library's quadratic `rev` for every window (#windows x #clusters^2 / 3 list cells, 21 ns each), and every
+/// `byte_start_end` walks the run-length vector from its start (0.12 us per run in the unbounded model, 0.57 us in the
+/// machine model, which `agree` runs in both profiles: 1.3 us per run step in total). The OCaml driver gives a case
+/// 20 s of wall time and the machine may be loaded tenfold: `fits` keeps a case below roughly 0.7 s of model time.
 fn fits(kind: usize, lens: &[usize], max: usize, ctx: usize) -> bool {
     let n = lens.len();
     if n == 0 {
         return true;
     }
     let n_f = n as f64;
-    // possible_character_substrings: one walk over the runs per start position (0.2 us per run in the model)
-    let runs = 1 + lens.windows(2).filter(|w| w[0] != w[1]).count();
-    let starts = n - max.min(n) + 1;
-    if (starts as f64) * (runs as f64) > 3e6 {
+    let runs = (1 + lens.windows(2).filter(|w| w[0] != w[1]).count()) as f64;
+    let per = (lens.iter().sum::<usize>() as f64 / n_f).max(1.0);
+    let bytes = kind == 1 || kind == 4;
+    let step = max.saturating_sub(2 * ctx).max(1) as f64;
+    let step_chars = if bytes { (step / per).max(1.0) } else { step };
+    let windows = if kind == 2 { 1.0 } else { (n_f / step_chars).ceil() + 1.0 };
+    // calls of byte_start_end: two per start position of possible_character_substrings, six per window, and one per
+    // character counted by count_until (every character once as window content, the context characters per window)
+    let starts = (n - max.min(n) + 1) as f64;
+    let ctx_chars = if bytes { (ctx as f64 / per).min(n_f) } else { 0.0 };
+    let walks = 2.0 * starts + 6.0 * windows + if bytes { n_f + windows * (2.0 * ctx_chars + 2.0) } else { 0.0 };
+    if walks * runs / 2.0 > 0.5e6 {
         return false;
     }
     if kind == 2 {
         return true;
     }
-    let step = max.saturating_sub(2 * ctx).max(1) as f64;
-    if kind == 1 || kind == 4 {
-        let per = (lens.iter().sum::<usize>() as f64 / n_f).max(1.0);
-        let step_chars = (step / per).max(1.0);
-        n_f * n_f * n_f / (3.0 * step_chars) <= 15e6
+    if bytes {
+        n_f * n_f * n_f / (3.0 * step_chars) <= 5e6
     } else {
-        n_f * n_f / step <= 2e6
+        n_f * n_f / step <= 0.7e6
     }
 }
 
@@ -747,10 +754,10 @@ impl Prop for C16 {
         });
 
         // 4. possible_byte_substrings, compared with its reference model and its machine model (`pbs_agree`); `()` = not
-        // run: the models walk the list of byte lengths from the front for every slice (quadratic), the code is
-        // quadratic in the text when max is large
+        // run: the models walk the list of byte lengths from the front for every slice and every `get` (quadratic; three
+        // model runs per case), the code is quadratic in the text when max is large
         let nclusters = vh::split_clusters(&s, g).count();
-        let pbs = if nclusters <= 300 || (max < 64 && nclusters <= 1100) {
+        let pbs = if nclusters <= 300 {
             let s8 = s.clone();
             guard(move || {
                 let r = possible_byte_substrings(&s8, max, g);
